@@ -276,7 +276,7 @@ func c20Check(r *rep.Run, w *c20worker, c c20cfg, level int, how string, res eva
 	// the engine: it must compile with the given variables and evaluate without failing to the same value
 	e, cerr := w.h.Compile(w.cfg, res.Expr, 0)
 	if cerr != nil {
-		if level == 0 && !strings.HasPrefix(strings.TrimSpace(res.Expr), "(") && strings.Contains(cerr.Error(), "parentheses unmatched") && r.KnownOpen(c20Known) {
+		if _, isPanic := cerr.(*drive.PanicErr); !isPanic && level == 0 && !strings.HasPrefix(strings.TrimSpace(res.Expr), "(") && r.KnownOpen(c20Known) {
 			r.HitKnown(c20Known)
 			return
 		}
